@@ -22,7 +22,7 @@ from .. import build, sp
 ID = "C20"
 META = {
     "technique": "runtime monitoring: differential monitor of parse_string/parse_file/write_string/write_file against the harness-computed fold of probe/shipped middleware stacks; sys.addaudithook + ResourceWarning monitor on file access; splice-protocol monitor on BlockMiddleware.transform",
-    "level_text": "All stacks of 0-3 middlewares drawn from order-sensitive probes (block and library level) and shipped order-sensitive pairs are passed in every argument position of the four entry points, as list, tuple, one-shot iterator and generator, on 20 documents; results are compared by fingerprint / bytes with the fold computed by the harness itself (own per-block dispatch, splice and fresh Library; default stacks written out from the statement; a key-renaming probe makes stale key indexes visible). parse_file is compared with parse_string of the file's decoded content (decoding + universal newlines, computed from the bytes in memory) for utf-8, latin-1, gbk and utf-16 and LF, CRLF and CR line ends; write_file to a path and to file objects is read back; an audit hook checks that only the target file is opened and none is left open. Probe block middlewares return None, empty, one block, lists/tuples of k blocks, generators and non-block objects for each of the five block kinds. write_file targets: path, StringIO, open() text file, an object with only write(str), a codecs stream writer, a text-mode SpooledTemporaryFile, a TextIOWrapper over BytesIO. The splice probe also comes as a middleware overriding transform_block itself, answering for entries, implicit comments and the four failed kinds (parsing-failed, duplicate-key, duplicate-field, middleware-error) with every result shape. parse_file is also run on documents just over 4 KiB, 8 KiB, 64 KiB and 1 MiB (thorough 8 MiB) whose enclosed values are spelled like macros defined only at the very end.",
+    "level_text": "All stacks of 0-3 middlewares drawn from order-sensitive probes (block and library level) and shipped order-sensitive pairs are passed in every argument position of the four entry points, as list, tuple, one-shot iterator and generator, on 20 documents; results are compared by fingerprint / bytes with the fold computed by the harness itself (own per-block dispatch, splice and fresh Library; default stacks written out from the statement; a key-renaming probe makes stale key indexes visible). parse_file is compared with parse_string of the file's decoded content (decoding + universal newlines, computed from the bytes in memory) for utf-8, latin-1, gbk and utf-16 and LF, CRLF and CR line ends; write_file to a path and to file objects is read back; an audit hook checks that only the target file is opened and none is left open. Probe block middlewares return None, empty, one block, lists/tuples of k blocks, generators and non-block objects for each of the five block kinds. write_file targets: path, StringIO, open() text file, an object with only write(str), a codecs stream writer, a text-mode SpooledTemporaryFile, a TextIOWrapper over BytesIO. The splice probe also comes as a middleware overriding transform_block itself, answering for entries, implicit comments and the four failed kinds (parsing-failed, duplicate-key, duplicate-field, middleware-error) with every result shape. parse_file is also run on documents just over 4 KiB, 8 KiB, 64 KiB and 1 MiB (thorough 8 MiB) whose enclosed values are spelled like macros defined only at the very end. Splice result shapes include the package's own non-block objects: an empty Library, a Library holding blocks, a Field, the Entry class, a range.",
     "level_note": "'decoded content' = what Python text I/O yields for the bytes; write_file uses the platform default encoding, so its documents are ASCII",
 }
 RULE = ("case = (entry point / argument position, document index, stack spec) or (splice probe: block kind x returned value shape); non-trivial = a stack of "
@@ -129,7 +129,8 @@ def cases(tier, seed, shard, nshards):
                 if idx % nshards == shard:
                     yield {"k": "parse_file", "doc": variant, "big": size, "enc": enc, "pos": ["none", "append", "parse_stack"][variant], "stack": [] if variant == 0 else [["ship", "RemoveEnclosingMiddleware"]] if variant == 2 else [["probe", "A"]]}
     shapes = ["none", "empty_list", "empty_tuple", "empty_str", "same", "one_new", "list1", "list2", "list3", "tuple2", "generator2",
-              "int", "str", "object", "dict", "list_with_nonblock", "list_with_none", "zero", "false", "zero_float", "falsy_object", "falsy_block"]
+              "int", "str", "object", "dict", "list_with_nonblock", "list_with_none", "zero", "false", "zero_float", "falsy_object", "falsy_block",
+              "library_empty", "library_blocks", "range", "field", "block_class"]
     # "tb:<kind>": the probe overrides transform_block itself and answers for blocks of that kind - also for the failed kinds,
     # which the per-type methods never see (seed C20-l: blocks on which an earlier middleware failed were passed through)
     for kind in ("entry", "string", "preamble", "ecomment", "icomment", "tb:entry", "tb:failed", "tb:dupkey", "tb:dupfield", "tb:mwerror", "tb:icomment"):
@@ -593,6 +594,7 @@ def check_write_file(case, ctx):
 def check_splice(case, ctx):
     from bibtexparser import model as M
     from bibtexparser.middlewares.middleware import BlockMiddleware
+    from bibtexparser.library import Library
     kind, shape = case["kind"], case["shape"]
     specs = [["string", "s1", "{v}"], ["entry", "article", "e1", [["t", "{1}"]]], ["preamble", "p"], ["ecomment", "c"], ["icomment", "i"],
              ["entry", "book", "e2", []], ["string", "s2", "{w}"], ["failed", "@x{"]]
@@ -624,6 +626,8 @@ def check_splice(case, ctx):
             "list2": [new[0], block], "list3": [new[0], new[1], new[2]], "tuple2": (block, new[1]), "generator2": (b for b in [new[0], new[1]]),
             "int": 5, "str": "block", "object": sentinel, "dict": {"a": block}, "list_with_nonblock": [new[0], 7], "list_with_none": [block, None],
             "zero": 0, "false": False, "zero_float": 0.0, "falsy_object": Falsy(), "falsy_block": falsy_block,
+            # objects of the package itself that are no blocks (seed C20-n: Library gained __len__/__iter__ and passed for a collection)
+            "library_empty": Library(), "library_blocks": Library([new[1], new[2]]), "range": range(2), "field": M.Field("t", "{v}"), "block_class": M.Entry,
         }[shape]
 
     expect = {"falsy_block": lambda b: [falsy_block], "none": lambda b: [], "empty_list": lambda b: [], "empty_tuple": lambda b: [], "empty_str": lambda b: [], "same": lambda b: [b],
@@ -652,7 +656,8 @@ def check_splice(case, ctx):
     st, res = sp.escape(lambda: Splice().transform(lib))
     ctx.ran()
     ctx.mon("splice")
-    must_raise = shape in ("int", "str", "object", "dict", "list_with_nonblock", "list_with_none", "zero", "false", "zero_float", "falsy_object")
+    must_raise = shape in ("int", "str", "object", "dict", "list_with_nonblock", "list_with_none", "zero", "false", "zero_float", "falsy_object",
+                           "library_empty", "library_blocks", "range", "field", "block_class")
     if must_raise:
         if st != "raise" or not res.startswith("TypeError"):
             return [Violation("non-block-accepted", f"C20:splice:{shape}:no-TypeError", dict(kind=kind, got=srepr(res) if st == "raise" else [sp.block_kind(b) for b in res.blocks]))]
